@@ -1,4 +1,75 @@
-(* C09 - stub, replaced once Proofs/RangeproofProofs.v is in place *)
-From Coq Require Import ZArith.
-Theorem c09_stub : (0 = 0)%Z. Proof. exact eq_refl. Qed.
-Print Assumptions c09_stub.
+(* C09 - every range proof the library creates verifies, bounds the value and rewinds.
+   Only statements here; proofs are in Proofs/RangeproofProofs.v.  These theorems cover the PARAMETER
+   LOGIC of proof creation for all 64-bit inputs (where a boundary slip would hide from a sweep); that
+   created proofs verify and rewind is compared and asserted case by case by ./check C09 (it needs the
+   completeness of Borromean ring signatures, which is not proved here). *)
+From Coq Require Import ZArith List Bool Lia.
+Require Import Spec.Params Spec.Field Spec.Curve Spec.Bytes.
+Require Import Model.Base Model.Pedersen Model.Borromean Model.Rangeproof.
+Require Import Proofs.BytesLemmas Proofs.RangeproofProofs.
+Import ListNotations.
+Local Open Scope Z_scope.
+Notation S := secp256k1.
+
+(* success of range_proveparams, for all value, min_value in [0,2^64), exp in [-1,18], min_bits in [0,64] *)
+Theorem proveparams_sound :
+  forall min_value exp min_bits value pp,
+    0 <= min_value <= value -> value <= U64MAX -> -1 <= exp <= 18 -> 0 <= min_bits <= 64 ->
+    range_proveparams min_value exp min_bits value = Some pp ->
+    pp_v pp * pp_scale pp + pp_min_value pp = value /\
+    0 <= pp_v pp /\ min_value <= pp_min_value pp <= value /\
+    1 <= pp_rings pp <= 32 /\ 0 <= pp_npub pp <= 128 /\
+    length (pp_rsizes pp) = Z.to_nat (pp_rings pp) /\ length (pp_secidx pp) = Z.to_nat (pp_rings pp) /\
+    ((pp_mantissa pp = 0 /\ pp_v pp = 0 /\ pp_scale pp = 1 /\ pp_exp pp = 0 /\ pp_rsizes pp = [1%nat]) \/
+     (1 <= pp_mantissa pp <= 64 /\ pp_v pp < 2 ^ pp_mantissa pp /\
+      0 <= pp_exp pp <= 18 /\ pp_exp pp <= Z.max 0 exp /\ pp_scale pp = 10 ^ pp_exp pp /\
+      pp_rings pp = (pp_mantissa pp + 1) / 2 /\ 0 <= pp_min_bits pp <= min_bits /\ pp_min_bits pp <= pp_mantissa pp)).
+Proof. exact proveparams_sound. Qed.
+Print Assumptions proveparams_sound.
+
+(* it fails exactly for the documented-invalid combination: value (resp. min_value) above 2^63-1 with the other non-zero *)
+Theorem proveparams_fails_iff :
+  forall min_value exp min_bits value,
+    range_proveparams min_value exp min_bits value = None <->
+    (min_value <> U64MAX /\ 0 <= exp /\
+     ((min_value <> 0 /\ INT64MAX < value) \/ (value <> 0 /\ INT64MAX <= min_value))).
+Proof. exact proveparams_fails_iff. Qed.
+Print Assumptions proveparams_fails_iff.
+
+(* outside the documented domain (incl. exp = -2, 19 and min_bits = -1, 65) signing returns 0 at once *)
+Theorem sign_param_gate :
+  forall plen min_value commit blind nonce exp min_bits value message extra genp,
+    plen < 65 \/ value < min_value \/ 64 < min_bits \/ min_bits < 0 \/ exp < -1 \/ 18 < exp ->
+    rangeproof_sign_impl S plen min_value commit blind nonce exp min_bits value message extra genp = RFail.
+Proof. exact (sign_param_gate S). Qed.
+Print Assumptions sign_param_gate.
+
+(* a blinding factor >= n never yields a proof *)
+Theorem sign_rejects_blind_overflow :
+  forall plen min_value commit blind nonce exp min_bits value message extra genp proof,
+    cn S <= be_val blind ->
+    rangeproof_sign_impl S plen min_value commit blind nonce exp min_bits value message extra genp <> ROk proof.
+Proof. exact (sign_rejects_blind_overflow S). Qed.
+Print Assumptions sign_rejects_blind_overflow.
+
+(* a proof is only produced when the message fits into 128*(rings-1) bytes and the buffer holds the computed need *)
+Theorem sign_needs_room :
+  forall plen min_value commit blind nonce exp min_bits value message extra genp proof,
+    rangeproof_sign_impl S plen min_value commit blind nonce exp min_bits value message extra genp = ROk proof ->
+    exists pp, range_proveparams min_value exp min_bits value = Some pp /\
+      Z.of_nat (length (match message with Some m => m | None => [] end)) <= Z.max 0 (128 * (pp_rings pp - 1)) /\
+      Z.of_nat (length (header_bytes pp)) + 32 * (pp_npub pp + pp_rings pp - 1) + 32 + Z.shiftr (pp_rings pp + 6) 3 <= plen.
+Proof. exact (sign_result_length S). Qed.
+Print Assumptions sign_needs_room.
+
+(* the advertised maximum size never exceeds 5134 bytes *)
+Theorem max_size_bound :
+  forall max_value min_bits, 0 <= max_value < 2 ^ 64 -> min_bits <= 64 ->
+    0 <= rangeproof_max_size max_value min_bits <= 5134.
+Proof. exact max_size_bound. Qed.
+Print Assumptions max_size_bound.
+
+(* non-vacuity: a concrete successful parameter derivation (value 86, min_value 10, exp 1, min_bits 5) *)
+Example proveparams_example :
+  exists pp, range_proveparams 10 1 5 86 = Some pp /\ pp_v pp = 7 /\ pp_scale pp = 10 /\ pp_min_value pp = 16 /\ pp_mantissa pp = 5.
+Proof. eexists. split; [vm_compute; reflexivity|]. repeat split. Qed.
